@@ -177,7 +177,7 @@ func panicSite(stack string) string {
 var (
 	// the labels cover the ends of the alphabet (a, z), a digit and a hyphen: case-insensitive
 	// comparison must hold for every letter and leave the other characters alone
-	tlds    = []string{"com", "org", "biz"}
+	tlds = []string{"com", "org", "biz"}
 	// ... and raw UTF-8 labels (an IDN written without punycode; bfe does not validate Host bytes) in pairs
 	// that differ only in one multi-byte character
 	slds    = []string{"a", "b", "test1", "zone-9", "例", "测"}
